@@ -223,12 +223,18 @@ pub fn input_alphabet(node: &Node, f: Flags, extra: &[char]) -> Vec<char> {
 /// from the raw index vector), glued together with a little random filler. Anchors are ignored and classes are sampled
 /// from a small candidate list, so the result is a good guess, not a guaranteed match.
 pub fn sample_input(node: &Node, f: Flags, raw: &[u16], alphabet: &[char]) -> String {
+    sample_input_scaled(node, f, raw, alphabet, 4, 60)
+}
+
+/// the same with a chosen cap on the iterations taken per quantifier and on the number of nodes visited
+pub fn sample_input_scaled(node: &Node, f: Flags, raw: &[u16], alphabet: &[char], rep_cap: u32, budget: usize) -> String {
     struct S<'a> {
         raw: &'a [u16],
         k: usize,
         caps: Vec<Option<String>>,
         i: bool,
         budget: usize,
+        rep_cap: u32,
     }
     impl<'a> S<'a> {
         fn pick(&mut self, n: usize) -> usize {
@@ -315,7 +321,7 @@ pub fn sample_input(node: &Node, f: Flags, raw: &[u16], alphabet: &[char]) -> St
                 Node::Rep { body, min, max, .. } => {
                     let hi = max.map_or(*min + 2, |m| m.min(*min + 2));
                     let cnt = *min + self.pick((hi - *min + 1) as usize) as u32;
-                    for _ in 0..cnt.min(4) {
+                    for _ in 0..cnt.min(self.rep_cap) {
                         self.go(body, out, alphabet)
                     }
                 }
@@ -328,7 +334,7 @@ pub fn sample_input(node: &Node, f: Flags, raw: &[u16], alphabet: &[char]) -> St
             }
         }
     }
-    let mut s = S { raw, k: 0, caps: vec![], i: f.i, budget: 60 };
+    let mut s = S { raw, k: 0, caps: vec![], i: f.i, budget, rep_cap };
     let mut out = String::new();
     let pieces = 1 + s.pick(2);
     for _ in 0..pieces {
@@ -342,4 +348,104 @@ pub fn sample_input(node: &Node, f: Flags, raw: &[u16], alphabet: &[char]) -> St
         out.push(alphabet[s.pick(alphabet.len())]);
     }
     out
+}
+
+
+/// "Large quantity" cases: a small generated pattern in which one quantity is scaled up — a quantifier bound, the length
+/// of a literal, the number of alternatives, the number of groups before a back-reference, the nesting depth — to a
+/// value between 5 and 40, with inputs sampled from the scaled pattern's own language (no cap on the iterations taken)
+/// plus near misses (one character dropped, doubled, embedded in filler). Returns (raw node, flags, literal inputs).
+pub fn scaled_strategy(cfg: &GenCfg, flag_letters: &'static str) -> BoxedStrategy<(Node, String, Vec<String>)> {
+    let mut small = cfg.clone();
+    small.size = 6;
+    small.depth = 2;
+    let lits = cfg.lits.clone();
+    (node_strategy(&small), 0u8..9, 5u32..=40, any::<u16>(), flags_strategy(flag_letters), prop::collection::vec(prop::collection::vec(any::<u16>(), 6..=6), 3..=3))
+        .prop_map(move |(base, kind, n, sel, flags, raws)| {
+            let l = |k: usize| Node::Lit(lits[k % lits.len()]);
+            // long literals: half of them over the pattern's few letters (self-overlapping), half over forty distinct
+            // characters (no character recurs)
+            const POOL: &[char] = &['a', 'b', 'c', 'd', 'e', 'f', 'g', 'h', 'i', 'j', 'k', 'l', 'm', 'n', 'o', 'p', 'q', 'r', 's', 't', 'u', 'v', 'w', 'x', 'y', 'z', '0', '1', '2', '3', '4', '5', '6', '7', '8', '9', 'A', 'B', 'C', 'D'];
+            let long_lit = |n: usize, pick: usize, distinct: bool| -> Node {
+                Node::Cat((0..n).map(|k| if distinct { Node::Lit(POOL[(pick + k) % POOL.len()]) } else { Node::Lit(lits[(pick + k * (1 + pick % 3)) % lits.len()]) }).collect())
+            };
+            let pick = sel as usize;
+            let node = match kind {
+                // a quantifier with a large bound over the base (or over one letter when the base is nullable-heavy)
+                // (the repeated body is a plain two-letter literal: a generated body under a large count backtracks exponentially)
+                0 => Node::Cat(vec![Node::Rep { body: Box::new(Node::ncap(Node::Cat(vec![l(pick), l(pick + 1 + pick % 2)]))), min: n, max: Some(n), greedy: true, brace: true }, base.clone()]),
+                1 => Node::Cat(vec![l(pick), Node::Rep { body: Box::new(l(pick + 1)), min: n, max: Some(n + (sel as u32 % 3)), greedy: sel & 8 == 0, brace: true }, base.clone()]),
+                2 => Node::Cat(vec![base.clone(), Node::Rep { body: Box::new(Node::Class(ClassExpr { neg: false, items: vec![Item::Char(lits[pick % lits.len()]), Item::Char(lits[(pick + 1) % lits.len()])], sub: None })), min: 0, max: Some(n), greedy: sel & 8 == 0, brace: true }, l(pick + 2)]),
+                // a long literal
+                3 => Node::Cat(vec![base.clone(), long_lit(n as usize, pick, sel & 128 != 0)]),
+                // a long leading literal (the prefix the scan looks for), then the base
+                7 => Node::Cat(vec![long_lit(n as usize, pick, sel & 128 != 0), base.clone()]),
+                // a long capture and a reference to it
+                8 => Node::Cat(vec![
+                    Node::cap(Node::Rep {
+                        body: Box::new(if sel & 16 == 0 { Node::Dot } else { Node::Class(ClassExpr { neg: false, items: vec![Item::Char(lits[pick % lits.len()]), Item::Char(lits[(pick + 1) % lits.len()]), Item::Char(lits[(pick + 2) % lits.len()])], sub: None }) }),
+                        min: n,
+                        max: if sel & 32 == 0 { Some(n) } else { None },
+                        greedy: true,
+                        brace: true,
+                    }),
+                    if sel & 64 == 0 { Node::Empty } else { l(pick + 3) },
+                    Node::BackRef(0),
+                    base.clone(),
+                ]),
+                // many alternatives
+                4 => Node::Cat(vec![Node::ncap(Node::Alt((0..n as usize).map(|k| Node::Cat(vec![l(k), l(k / lits.len() + pick)])).collect())), base.clone()]),
+                // many groups, then a reference to a late one
+                5 => {
+                    let mut v: Vec<Node> = (0..n as usize).map(|k| Node::cap(l(k + pick))).collect();
+                    v.push(base.clone());
+                    v.push(Node::BackRef(65535 - (sel as u32 % 4096)));
+                    Node::Cat(v)
+                }
+                // deep nesting
+                _ => {
+                    let mut x = base.clone();
+                    for k in 0..n.min(30) {
+                        x = if k % 2 == 0 { Node::cap(x) } else { Node::ncap(Node::Cat(vec![x, Node::rep(l(pick + k as usize), 0, Some(1), true)])) };
+                    }
+                    x
+                }
+            };
+            let resolved = resolve(&node);
+            let f = Flags::from_str(&flags);
+            let alpha = input_alphabet(&resolved, f, &[]);
+            let mut inputs: Vec<String> = vec![];
+            for (j, raw) in raws.iter().enumerate() {
+                let m: String = sample_input_scaled(&resolved, f, raw, &alpha, 64, 600).chars().take(160).collect();
+                let cs: Vec<char> = m.chars().collect();
+                match j {
+                    0 => inputs.push(m.clone()),
+                    1 => {
+                        // one character dropped; one character changed (towards the end more often than not); a part
+                        // of the match directly in front of the match
+                        if !cs.is_empty() {
+                            let at = (raw[0] as usize * cs.len()) >> 16;
+                            inputs.push(cs.iter().enumerate().filter(|(i, _)| *i != at).map(|(_, c)| *c).collect());
+                            let at2 = cs.len() - 1 - ((raw[3] as usize * cs.len().min(6)) >> 16);
+                            let other = alpha.iter().find(|c| **c != cs[at2]).copied().unwrap_or('~');
+                            inputs.push(cs.iter().enumerate().map(|(i, c)| if i == at2 { other } else { *c }).collect());
+                            let k = 1 + ((raw[4] as usize * (cs.len() - 1).max(1)) >> 16);
+                            inputs.push(format!("{}{m}", cs[..k.min(cs.len())].iter().collect::<String>()));
+                        }
+                        inputs.push(m.clone());
+                    }
+                    _ => {
+                        // embedded in filler, and doubled
+                        let filler: String = (0..(raw[1] % 20) as usize).map(|k| alpha[(raw[2] as usize + k * 7) % alpha.len()]).collect();
+                        inputs.push(format!("{filler}{m}{filler}"));
+                        if cs.len() <= 60 {
+                            inputs.push(format!("{m}{m}"));
+                        }
+                    }
+                }
+            }
+            inputs.dedup();
+            (node, flags, inputs)
+        })
+        .boxed()
 }
